@@ -51,6 +51,10 @@ func (o *oneShot) Write(p []byte) (int, error) { return o.out.Write(p) }
 // faultMark: first byte of a raw request that the upstream answers with an oversized length prefix
 const faultMark = 0xEE
 
+// slowMark: first byte of a raw request that the upstream answers (with the usual echo) only after the number of
+// milliseconds given in the next two bytes - a helper behind the agent that takes its time (a token waiting for a touch)
+const slowMark = 0xED
+
 func startUpstream() (*upstream, error) {
 	dir, err := os.MkdirTemp("", "verif-c11-")
 	if err != nil {
@@ -104,6 +108,11 @@ func (u *upstream) serve(c net.Conn) {
 			o := &oneShot{in: bytes.NewReader(frame), out: &bytes.Buffer{}}
 			_ = agent.ServeAgent(u.keyring, o)
 			reply = o.out.Bytes()
+		case slowMark:
+			if len(req) >= 3 {
+				time.Sleep(time.Duration(int(req[1])<<8|int(req[2])) * time.Millisecond)
+			}
+			fallthrough
 		default:
 			body := append([]byte{echoMark}, req...)
 			reply = make([]byte, 4+len(body))
